@@ -1,4 +1,5 @@
 #include "dispatch.hpp"
+#include <atomic>
 #include <queue>
 #include <map>
 #include <set>
@@ -90,7 +91,8 @@ struct Dispatcher::Data {
     std::condition_variable jobs_available;
     std::vector<std::thread> threads;
     std::set<std::thread::id> thread_ids;
-    uint32_t threads_waiting{0u};
+    // modified with the mutex held, but read by wait() without it
+    std::atomic<uint32_t> threads_waiting{0u};
 
     struct {
         std::vector<std::unique_ptr<JobQueue> > array;
@@ -98,7 +100,8 @@ struct Dispatcher::Data {
         std::map<std::string, QueueId> by_name;
     } extra;
 
-    bool terminate {false};
+    // set by the destructor and read by the workers and wait() without the mutex
+    std::atomic<bool> terminate {false};
     bool single_thread_mode{false};
 
     JobQueue* findQueue() {
